@@ -614,6 +614,56 @@ def check_own_state(ctx):
            '; '.join(problems[:3]))
 
 
+def check_rows_written(ctx):
+    """"every reported row ... was actually simulated": rows 0..current_index-1 of the result arrays are the ones the loop has written.
+    After the loop the arrays are cut to what is reported; a cut that keeps row `current_index` is only right on a path that has just
+    written that row (a cell that dies / divides at its first instant has written none)."""
+    sl = simloop.SimLoop(ctx, 'Lineage')
+    f = sl.f
+    body = f.body
+    top = sl.loop
+    while getattr(top, '_parent', None) is not f:
+        top = top._parent
+    post = body[body.index(top) + 1:]
+    ps = paths.Enumerator(limit=4000, for_nonempty=('range(self.num_species)',)).run(post, paths.State())
+    ctx.paths += len(ps)
+    defs = {n_: v_ for n_, v_ in util.single_defs(f).items() if v_ is not None}
+    arrays = ('self.c_results', 'self.c_volume_trace')
+    bad = []
+    n_cuts = 0
+    for p in ps:
+        if p.exit == 'raise':
+            continue
+        row_written = set()
+        for e in p.stmts():
+            n = e.node
+            if isinstance(n, ast.Assign) and isinstance(n.targets[0], ast.Subscript) and src(n.targets[0].value) in arrays:
+                idx = n.targets[0].slice
+                first = idx.elts[0] if isinstance(idx, ast.Tuple) else idx
+                if src(first) == 'current_index':
+                    row_written.add(src(n.targets[0].value))
+            if isinstance(n, ast.AugAssign) and src(n.target) == 'current_index':
+                row_written = set()
+            if isinstance(n, ast.Assign) and src(n.targets[0]) in arrays and isinstance(n.value, ast.Subscript) and src(n.value.value) == src(n.targets[0]):
+                sli = n.value.slice
+                first = sli.elts[0] if isinstance(sli, ast.Tuple) else sli
+                if not (isinstance(first, ast.Slice) and first.lower is None and first.upper is not None):
+                    raise AnalysisError('SimulateSingleCell: cut of %s not understood: %s' % (src(n.targets[0]), src(n.value)))
+                n_cuts += 1
+                upn = util.inline(first.upper, defs)
+                up = src(upn).replace(' ', '')
+                if up == 'current_index' or (isinstance(upn, ast.Call) and src(upn.func) == 'min' and any(src(a_) == 'current_index' for a_ in upn.args)):
+                    continue
+                if up in ('current_index+1', '1+current_index'):
+                    if src(n.targets[0]) not in row_written:
+                        bad.append('%s is cut to %s rows although row current_index was not written on the path [%s]' % (src(n.targets[0]), up, paths.describe(p, 4)))
+                    continue
+                raise AnalysisError('SimulateSingleCell: cut of %s to %s rows not understood' % (src(n.targets[0]), up))
+    ctx.ob('R19.4-rows-written', 'SimulateSingleCell', not bad and n_cuts > 0, sl.where,
+           'after the loop the result arrays keep only rows the loop has written (a cut that keeps row current_index follows a store into that row)',
+           '; '.join(sorted(set(bad))[:2]))
+
+
 def check_grid_cut(ctx):
     """"every daughter starts at its mother's division time": the daughters' time grid is the mother's grid from the first point that is
     not before the division time.  The helper that cuts the grid must find that point by looking at the grid values themselves, in
@@ -676,6 +726,7 @@ def check(ctx):
     for m in ('types', 'types.pxd', 'simulator', 'simulator.pxd', 'lineage', 'lineage.pxd', 'random'):
         prog.mod(m)
     check_grid_cut(ctx)
+    check_rows_written(ctx)
     fl = None
     for mod, cls in SPLITTERS:
         f, copies, p_var = check_partition(ctx, mod, cls)
